@@ -416,11 +416,7 @@ fn sweep(ctx: &Ctx) {
 
 pub fn props() -> Vec<(Box<dyn PropDyn>, u32, u32)> {
     vec![(
-        Box::new(Prop {
-            name: "complete",
-            strat: case_strategy,
-            check,
-        }),
+        Box::new(Prop::new("complete", case_strategy, check).shrink(200)),
         480,
         6000,
     )]
